@@ -392,6 +392,19 @@ theorem ainit_inv (name : Bytes) (caps : List Nat) : AInv (ainit name caps) (cin
   ⟨rfl, by simp only [ainit, cinit, initBufs]; exact List.take_of_length_le (by simp), by simp [ainit, initBufs],
     by intro e he; simp [ainit] at he, by intro l hl; simp [ainit] at hl⟩
 
+/-- the simulation relation holds along every script -/
+theorem arun_inv (grow : Nat → Nat) (lim : Limits) : ∀ (cops : List COp) (a : ASt) (cs : CSt), AInv a cs →
+    AInv (arun grow lim a cops) (crun lim cs cops) ∧ (arun grow lim a cops).nC = a.nC := by
+  intro cops
+  induction cops with
+  | nil => intro a cs hi; exact ⟨hi, rfl⟩
+  | cons c tl ih =>
+    intro a cs hi
+    obtain ⟨h1, h2⟩ := astep_sim grow lim a cs c hi
+    obtain ⟨h3, h4⟩ := ih _ _ h1
+    simp only [arun, crun, List.foldl_cons] at h3 h4 ⊢
+    exact ⟨h3, h4.trans h2⟩
+
 /-- **The option / config code refines value semantics.** For EVERY growth policy of `append`, all limits and every
 caller script, the heap machine — `WithAttributes` options that ARE the caller's slices, `NewEventConfig` folding
 `append` over them from the nil slice, RecordError's extra option and extra `NewEventConfig`, addEvent's
@@ -402,18 +415,7 @@ array with the caller or with another event's later `append`, and nothing is app
 theorem heap_machine_refines_values (grow : Nat → Nat) (lim : Limits) (name : Bytes) (caps : List Nat) (cops : List COp) :
     aview (arun grow lim (ainit name caps) cops) = (crun lim (cinit name caps) cops).span ∧
     (arun grow lim (ainit name caps) cops).heap.take caps.length = (crun lim (cinit name caps) cops).bufs := by
-  have key : ∀ (cops : List COp) (a : ASt) (cs : CSt), AInv a cs →
-      AInv (arun grow lim a cops) (crun lim cs cops) ∧ (arun grow lim a cops).nC = a.nC := by
-    intro cops
-    induction cops with
-    | nil => intro a cs hi; exact ⟨hi, rfl⟩
-    | cons c tl ih =>
-      intro a cs hi
-      obtain ⟨h1, h2⟩ := astep_sim grow lim a cs c hi
-      obtain ⟨h3, h4⟩ := ih _ _ h1
-      simp only [arun, crun, List.foldl_cons] at h3 h4 ⊢
-      exact ⟨h3, h4.trans h2⟩
-  obtain ⟨hi, hn⟩ := key cops _ _ (ainit_inv name caps)
+  obtain ⟨hi, hn⟩ := arun_inv grow lim cops _ _ (ainit_inv name caps)
   refine ⟨hi.view, ?_⟩
   have := hi.bufs
   rw [hn] at this
@@ -424,6 +426,25 @@ theorem heap_machine_matches_reference (grow : Nat → Nat) (lim : Limits) (name
     snapshot (aview (arun grow lim (ainit name caps) cops)) =
       Spec.refExport lim name (resolveAll (initBufs caps) cops) := by
   rw [(heap_machine_refines_values grow lim name caps cops).1, crun_span, cinit, span_refines_reference]
+
+/-- **Ownership.** After any caller script, under any growth policy and any limits, the span holds NO pointer into
+caller-owned memory: every event's and every link's attribute slice lives in an array the SDK allocated itself
+(array id beyond the caller's arrays; span attributes are copied element by element and are values in the machine),
+and the caller's arrays hold the caller's own writes and nothing else — no span method (AddEvent, RecordError,
+SetAttributes, AddLink, Start with WithAttributes / WithLinks) stores or writes through a caller's slice. -/
+theorem span_holds_no_pointer_into_caller_memory (grow : Nat → Nat) (lim : Limits) (name : Bytes) (caps : List Nat)
+    (cops : List COp) :
+    (∀ e ∈ (arun grow lim (ainit name caps) cops).events.queue, ∀ s, e.attrs = some s → caps.length ≤ s.arr) ∧
+    (∀ l ∈ (arun grow lim (ainit name caps) cops).links.queue, ∀ s, l.attrs = some s → caps.length ≤ s.arr) ∧
+    (arun grow lim (ainit name caps) cops).heap.take caps.length = callerBufs (initBufs caps) cops := by
+  obtain ⟨hi, hn⟩ := arun_inv grow lim cops _ _ (ainit_inv name caps)
+  have hn' : (arun grow lim (ainit name caps) cops).nC = caps.length := hn
+  refine ⟨fun e he s hs => ?_, fun l hl s hs => ?_, ?_⟩
+  · have := (hi.fresh e he s hs).1; omega
+  · have := (hi.freshL l hl s hs).1; omega
+  · have := hi.bufs
+    rw [hn', crun_bufs] at this
+    exact this
 
 /-- non-vacuity: the scratch-buffer idiom and the attribute-table idiom on the heap machine. Two events built in the
 same re-used array keep their own attributes; RecordError from `table[0:1]` (spare capacity behind it) leaves
